@@ -54,6 +54,11 @@ def programs(rnd, n):
     goals = ", ".join("g%d(%s)" % (k, ",".join((hv + bv)[(k * 7 + j) % 56] for j in range(24))) for k in range(6))
     fixed.append("wide(%s) :- %s.\n" % (",".join(hv), goals))
     fixed.append("wide2(%s) :- ( a(%s) -> b(%s) ; c(%s) ), d(%s).\n" % (",".join(hv[:12]), ",".join(bv[:20]), ",".join(bv[10:30]), ",".join(bv[20:40]), ",".join(bv)))
+    # long lists of variables (more than a hundred occurrences in one list term, in heads, bodies and nested)
+    lv = ["L%d" % i for i in range(130)]
+    fixed.append("longlist([%s]) :- use([%s|T]), more(T, f([%s])).\n" % (",".join(lv), ",".join(reversed(lv[:120])), ",".join(lv[i % 50] for i in range(150))))
+    fixed.append("longlist2(X) :- X = [%s], a(%s), [%s] = X.\n" % (",".join(lv[:110]), ",".join(lv[100:130]), ",".join(lv[5:125])))
+    fixed.append("manyargs(%s) :- g(%s), h([%s]).\n" % (",".join(lv[:120]), ",".join(reversed(lv[:118])), ",".join(lv[60:130] + lv[:60])))
     out.extend(fixed)
     # compilations that raise at different stages (syntax, visitor, code generation of an expression,
     # generator limits): whatever they leave behind must not change later outputs
